@@ -1,5 +1,6 @@
 import LSProofs.TextSpec
 import LSProofs.LoopSpec
+import LSProofs.Refine
 import LSProofs.Props.C03
 /-!
 # C01 — every operation behaves exactly like `String` on the same value
@@ -156,5 +157,37 @@ theorem collect_strs (rf : Refuse) (w : World) (d : Nat) (items : List (Option B
 /-- the scan of `retain` used above *is* `String::retain` on the characters of the text -/
 theorem retain_scan_is_string_retain (t : Bytes) (hv : Valid t) (answers : List (Option Bool)) :
     retainScan t.length t answers [] = Spec.retain t answers := retain_is_string_retain t hv answers
+
+/-- **the refinement theorem**: every finite history of public calls, on any number of handles, from
+the empty world over any static texts, under every allocator, is a run of the `String`-level
+specification `Spec.Run` (LSProofs/Refine.lean: `Spec.Target` says per operation what `String`
+allows — the new text of the target, the value returned, panics exactly where `String` panics,
+failure only where an allocation may be refused and then nothing changes — and `Spec.Step` adds
+that every other handle reads what it read); the reached world is well-formed and no alarm of the
+model (use after free, double free, out-of-bounds access, count underflow) is raised on the way -/
+theorem histories_refine_string (rf : Refuse) (st : List Bytes) (hst : ∀ t ∈ st, Valid t ∧ t.length ≤ STATIC_MAX_LEN)
+    (ops : List Op) (hv : ∀ op ∈ ops, op.ArgsValid) :
+    Spec.Run st ({ statics := st } : World).text ops (run rf { statics := st } ops).text (outs rf { statics := st } ops) ∧
+    ∀ u, Out.ub u ∉ outs rf { statics := st } ops :=
+  let h := run_refines rf ops { statics := st } (wf_init st hst) hv
+  ⟨h.1, h.2.2⟩
+
+/-- one call, from any well-formed world -/
+theorem call_refines_string (rf : Refuse) (w : World) (hw : Wf w) (op : Op) (hv : op.ArgsValid) :
+    Spec.Step w.statics w.text op (step rf w op).1.text (step rf w op).2 :=
+  (step_refines rf hw op hv).1
+
+-- non-vacuity of the specification: it pins the successful `push_str` and the panicking `truncate`
+example (T : Texts) (v : Option Bytes) (h : T 3 = some [0x61]) (hs : Spec.Target [] T (.pushStr 3 [0x62] false) v (.ok .unit)) :
+    v = some [0x61, 0x62] := by
+  simp only [Spec.Target, Spec.onLive, h] at hs
+  rcases hs with ⟨hv, _⟩ | ⟨_, ho⟩
+  · exact hv
+  · simp [failOut] at ho
+example (T : Texts) (v : Option Bytes) (out : Out) (h : T 0 = some [0xC3, 0xA9]) (hs : Spec.Target [] T (.truncate 0 1 true) v out) :
+    v = some [0xC3, 0xA9] ∧ out = .panicIdx := by
+  simp only [Spec.Target, Spec.onLive, h] at hs
+  have : Spec.truncate [0xC3, 0xA9] 1 = .panic := by rfl
+  rw [this] at hs; exact hs
 
 end LS.C01
